@@ -195,7 +195,7 @@ def run_case(desc, ctx):
             except Exception as e:  # noqa: BLE001
                 cnt(f"rejected_{smp['kind']}")
                 continue
-            out["evals"] += 1
+            out["evals"] += len(seen["batches"])  # one evaluation per sample_batch selection judged
             cnt("stub_calls" if kind == "stub" else "real_surrogate_calls", len(seen["batches"]))
             if not seen["batches"] or not seen["fit"] or len(seen["predict"]) < len(seen["batches"]):
                 bad(f"{smp['kind']}: sample_batch ran {len(seen['batches'])} times but fit {len(seen['fit'])} / predict {len(seen['predict'])} times", w)
